@@ -251,16 +251,12 @@ type Pool struct {
 	real  sync.Pool
 	items []any
 	reg   bool
-	mu    sync.Mutex
 }
 
-func (p *Pool) register() {
-	p.mu.Lock()
-	if !p.reg {
-		p.reg = true
-		verifrt.RegisterReset(func() { p.items = nil })
-	}
-	p.mu.Unlock()
+func (p *Pool) register(s *verifrt.Sched) {
+	// per execution: a pool that outlives the execution (package level) starts the next one empty
+	p.reg = true
+	s.OnReset(func() { p.items = nil; p.reg = false })
 }
 
 func (p *Pool) Get() any {
@@ -276,7 +272,7 @@ func (p *Pool) Get() any {
 		return p.real.Get()
 	}
 	if !p.reg {
-		p.register()
+		p.register(s)
 	}
 	verifrt.Point("pool.get", p, nil)
 	if n := len(p.items); n > 0 {
@@ -300,7 +296,7 @@ func (p *Pool) Put(x any) {
 		return
 	}
 	if !p.reg {
-		p.register()
+		p.register(s)
 	}
 	verifrt.Point("pool.put", p, nil)
 	p.items = append(p.items, x)
